@@ -46,9 +46,14 @@ def _rng_states():
 
 
 def cases(rng, tier):
-    N = 25 if tier == "quick" else 300
+    N = 36 if tier == "quick" else 300
     for i in range(N):
-        target = cutfind.gen_case(rng, tier, exact=True, restricted=rng.random() < 0.4)
+        if rng.random() < 0.6:
+            target = cutfind.gen_tie_rich(rng, tier)
+            if rng.random() < 0.6:
+                target["seed"] = 0   # an integer seed like any other
+        else:
+            target = cutfind.gen_case(rng, tier, exact=True, restricted=rng.random() < 0.4)
         target["width"] = max(1, target["width"])
         target["max_gamma"] = max(1.0, target["max_gamma"])
         if target["max_backjumps"] is not None and target["max_backjumps"] < 0:
